@@ -238,7 +238,7 @@ def report(ctx: Ctx, c: dict[str, Any], what: str, extra: dict[str, Any] | None 
     alt = [] if c["kind"] == "corpus" else [("class", k) for k in c["classes"]]
     if not ctx.is_known(key, alt) and "uuid_seed" in c and "text" in c.get("learn", {}):
         # the learner's answer must be a function of the request: ask again in a fresh interpreter and report only
-        # what shows again (a long-lived worker process was once seen to produce a text no fresh process reproduces)
+        # what shows again (guards against anything transient: /repo being edited while the check runs, a worker in a bad state)
         again = pvlib.run_requests_fresh([{"op": "learn", "chunks": [c["pv"]], "hash_seed": c.get("hash_seed", 0),
                                            "uuid_seed": c["uuid_seed"], "timeout": 60}])[0]
         if again.get("text") != c["learn"]["text"]:
